@@ -11,13 +11,17 @@ from harness.common import *
 from harness.decoders import decode_entry_items, struct_lit
 
 NAMES = ['alphaBeta', 'MAX_lights2', 'gamma_Ö']      # mixed case, digits, non-ASCII: the key is the declared name, character for character
-TYPES = ['bool', 'i32', 'u32', 'f32']
+TYPES = ['bool', 'i32', 'u32', 'f32', 'ABool', 'AI32', 'AU32', 'AF32']     # the A* are WGSL aliases: same scalar, but a NAMED type in naga's arena
+BASE = {'ABool': 'bool', 'AI32': 'i32', 'AU32': 'u32', 'AF32': 'f32'}
 
 
 def render(vals=None):
     vals = vals or [('bool', True, 0), ('f32', False, None), ('i32', True, 35)]
-    out = ['var<private> keep_bool: bool; var<private> keep_i32: i32; var<private> keep_u32: u32; var<private> keep_f32: f32;']
+    out = ['alias ABool = bool; alias AI32 = i32; alias AU32 = u32; alias AF32 = f32;',
+           'var<private> keep_bool: bool; var<private> keep_i32: i32; var<private> keep_u32: u32; var<private> keep_f32: f32;',
+           'var<private> keepa_bool: ABool; var<private> keepa_i32: AI32; var<private> keepa_u32: AU32; var<private> keepa_f32: AF32;']
     dflt = {'bool': 'true', 'i32': '1', 'u32': '1u', 'f32': '1.0'}
+    dflt.update({a: dflt[b] for a, b in BASE.items()})
     for n, (ty, has_init, oid) in zip(NAMES, vals):
         a = f'@id({oid}) ' if oid is not None else ''
         out.append(f'{a}override {n}: {ty}{" = " + dflt[ty] if has_init else ""};')
@@ -143,7 +147,7 @@ def run(ctx):
     for i, t in enumerate(mj['types']):
         sc = t['inner'].get('Scalar')
         if sc:
-            ty_h[{('Bool', 1): 'bool', ('Sint', 4): 'i32', ('Uint', 4): 'u32', ('Float', 4): 'f32'}[(sc['kind'], sc['width'])]] = i
+            ty_h[t['name'] or {('Bool', 1): 'bool', ('Sint', 4): 'i32', ('Uint', 4): 'u32', ('Float', 4): 'f32'}[(sc['kind'], sc['width'])]] = i
     ovs = c.get(module, 'overrides').fields[0].items
     holes = []
     assume = []
@@ -157,7 +161,7 @@ def run(ctx):
         c.set(o, 'id', Agg('Option', {'Some': [oid], 'None': []}, disc=z3.If(has_id, z3.BitVecVal(1, 64), z3.BitVecVal(0, 64))))
         assume.append(z3.Or([ty == ty_h[t] for t in TYPES]))
         holes.append((ty, has_init, has_id, oid))
-    ctx.bounds = {'overrides': len(NAMES), 'type': TYPES, 'id': 'all of u16, presence symbolic', 'default': 'presence symbolic'}
+    ctx.bounds = {'overrides': len(NAMES), 'type': TYPES + ['(A* = the same scalars through a WGSL alias)'], 'id': 'all of u16, presence symbolic', 'default': 'presence symbolic'}
     ctx.assumptions += ['override names are concrete and distinct; defaults that depend on other overrides are just "has a default" for the generator',
                         'key rule = naga back/pipeline_constants.rs process_override: decimal @id if present, else the name',
                         'value lemma: decoded conversion applied to ANY field value, then naga map_value_to_literal, gives back the value '
@@ -260,6 +264,7 @@ def conditions(ov, en, holes, ty_h):
     any_opt = z3.Or([h[1] for h in holes])
     conds.append(('map: `let mut` iff something is optional', any_opt == B(ov['mut'])))
     rust = {'bool': 'bool', 'i32': 'i32', 'u32': 'u32', 'f32': 'f32'}
+    rust.update({a: rust[b] for a, b in BASE.items()})
     for i, (name, (ty, has_init, has_id, oid)) in enumerate(zip(NAMES, holes)):
         fty = dict(ov['fields']).get(name, '')
         per_t = []
@@ -279,7 +284,7 @@ def conditions(ov, en, holes, ty_h):
             else:
                 conds.append((f'key: {name} has an undecodable key {k!r}', B(False)))
             form = value_form(v, var)
-            conds.append((f'value: {name} converted according to its type', z3.And([z3.Implies(ty == ty_h[t], B(form == ('bool' if t == 'bool' else 'cast'))) for t in TYPES])))
+            conds.append((f'value: {name} converted according to its type', z3.And([z3.Implies(ty == ty_h[t], B(form == ('bool' if BASE.get(t, t) == 'bool' else 'cast'))) for t in TYPES])))
     for nm, sec in (('vs_entry', 'vertex'), ('fs_entry', 'fragment')):
         e = en[sec].get(nm)
         if e is None:
